@@ -1,3 +1,4 @@
 SPECIFICATION Spec
 POSTCONDITION TraceAccepted
 CHECK_DEADLOCK FALSE
+CONSTANT LegacyF = {}
